@@ -117,6 +117,62 @@ func c20Step(in *c20inst, s Step, idx int, pg *progress) (viol *Viol) {
 	return nil
 }
 
+// c20Churn expands a Churn step: s.A operations on one allocator, drawn from the
+// stream s.B and from the MODEL's live set (so that frees hit live identifiers and
+// the deep counters of an implementation - total frees, total allocations, map
+// growth - are driven far beyond what an explicit step list of a few hundred
+// entries reaches). Every expanded operation goes through c20Step, i.e. through
+// every per-step check. Occupancy moves in phases between nearly empty and full.
+func c20Churn(in *c20inst, s Step, idx int, pg *progress) *Viol {
+	r := &Rng{s: mix(uint64(s.B)^0xc4c4, 0x20)}
+	size := in.max - in.min + 1
+	if size <= 0 {
+		return nil
+	}
+	pickLive := func() (int64, bool) {
+		if len(in.live) == 0 {
+			return 0, false
+		}
+		off := int64(r.U64() % uint64(size))
+		for k := int64(0); k < size; k++ {
+			id := in.min + (off+k)%size
+			if in.live[id] {
+				return id, true
+			}
+		}
+		return 0, false
+	}
+	bias := 50 // percent allocations
+	for n := int64(0); n < s.A; n++ {
+		if n%64 == 0 {
+			bias = []int{15, 35, 50, 50, 65, 85}[r.Intn(6)]
+		}
+		var st Step
+		x := r.Intn(100)
+		switch {
+		case x < bias:
+			st = Step{Inst: s.Inst, Op: "Allocate"}
+			if r.Chance(12) {
+				lo := int64(r.U64() % uint64(size))
+				hi := lo + int64(r.U64()%uint64(size-lo))
+				st = Step{Inst: s.Inst, Op: "Allocate_inRange", A: lo, B: hi}
+			}
+		default:
+			id, ok := pickLive()
+			if !ok {
+				st = Step{Inst: s.Inst, Op: "Allocate"}
+			} else {
+				st = Step{Inst: s.Inst, Op: "FreeID", A: id}
+			}
+		}
+		if v := c20Step(in, st, idx, pg); v != nil {
+			v.Detail += fmt.Sprintf(" [operation %d of %s: %s]", n, s, st)
+			return v
+		}
+	}
+	return nil
+}
+
 func liveIDs(in *c20inst) []int64 {
 	var out []int64
 	for k := range in.live {
@@ -150,6 +206,12 @@ func runC20pg(h History, pg *progress) *Viol {
 	}
 	for i, s := range h.Steps {
 		if s.Inst < 0 || s.Inst >= len(insts) {
+			continue
+		}
+		if s.Op == "Churn" {
+			if v := c20Churn(insts[s.Inst], s, i, pg); v != nil {
+				return v
+			}
 			continue
 		}
 		if v := c20Step(insts[s.Inst], s, i, pg); v != nil {
@@ -200,6 +262,9 @@ func newGeneratorOrNil(min, max int64) (g *uePolicyContainer.IDGenerator) {
 	return uePolicyContainer.NewGenerator(min, max)
 }
 
+// every c20DeepEvery-th history is a deep-churn history
+const c20DeepEvery = 400
+
 var c20mins = []int64{0, 1, 2, 5, 100, 65530, -3, -1, 0, 1, 1<<31 - 2, 1<<32 + 5, 1 << 40, -(1 << 33)}
 
 func genC20(seed, index uint64, maxSize int) History {
@@ -243,9 +308,26 @@ func genC20(seed, index uint64, maxSize int) History {
 			n = maxSteps + r.Intn(2000)
 		}
 	}
+	deep := index%c20DeepEvery == 11
+	if deep {
+		// deep-churn class: a short explicit prefix, then tens of thousands of checked
+		// operations (past 2^12 and 2^16 successful frees on one allocator), then a short
+		// explicit suffix and the drain
+		n = 1 + r.Intn(12)
+	}
 	phase := 0 // 0 mixed, 1 fill, 2 free
 	phaseLeft := 0
-	for len(h.Steps) < n {
+	deepAt := -1
+	if deep {
+		deepAt = r.Intn(n + 1)
+	}
+	for len(h.Steps) < n+map[bool]int{true: 1, false: 0}[deep] {
+		if len(h.Steps) == deepAt {
+			cnt := []int64{3000, 9000, 20000, 40000, 140000}[r.Intn(5)]
+			cnt += int64(r.Intn(int(cnt / 2)))
+			h.Steps = append(h.Steps, Step{Inst: r.Intn(ninst), Op: "Churn", A: cnt, B: int64(r.Intn(1000))})
+			continue
+		}
 		k := r.Intn(ninst)
 		g := gis[k]
 		if phaseLeft == 0 {
@@ -321,6 +403,14 @@ func c20ShrinkArgs(s Step) []Step {
 			out = append(out, t)
 		}
 	}
+	if s.Op == "Churn" {
+		if s.A > 1 {
+			try(s.A/2, s.B)
+			try(s.A-s.A/8, s.B)
+			try(s.A-1, s.B)
+		}
+		try(s.A, 0)
+	}
 	if s.Op == "Allocate_inRange" {
 		try(0, 0)
 		try(s.A, 0)
@@ -379,6 +469,13 @@ func classifyC20(h History) c20Class {
 				x.live--
 				x.freed = true
 			}
+		case "Churn":
+			// thousands of allocations and frees of live identifiers
+			c.freeRealloc = true
+			if s.A > 4*x.size {
+				c.wrap, c.exhaustion = true, true
+			}
+			x.freed = true
 		}
 	}
 	return c
@@ -397,7 +494,7 @@ var c20Engine = &engine{
 		if tier == "thorough" {
 			return 60_000_000
 		}
-		return 200_000
+		return 600_000
 	},
 	gen: func(seed, idx uint64, tier string) (History, bool, uint64, []string) {
 		h := genC20(seed, idx, c20MaxSize(tier))
@@ -420,6 +517,12 @@ var c20Engine = &engine{
 		}
 		if len(h.Steps) >= 600 {
 			class = append(class, "churn")
+		}
+		for _, st := range h.Steps {
+			if st.Op == "Churn" {
+				class = append(class, "deep_churn")
+				break
+			}
 		}
 		return h, cl.exhaustion || cl.freeRealloc || cl.wrap, hashHistory(h), class
 	},
@@ -491,7 +594,7 @@ func checkC20(tier string, seed uint64) int {
 		Coverage: map[string]interface{}{
 			"evaluations":         res.histories,
 			"distinct_nontrivial": res.distinct,
-			"rule": fmt.Sprintf("one seeded history per index: 1-3 interleaved allocators with min in %v and 1..%d identifiers (10 %% of them with sizes next to powers of two up to 257), up to 6*size steps of Allocate / Allocate_inRange / FreeID in fill, free and mixed phases (every 50th history is a churn history of 600-4600 steps), "+
+			"rule": fmt.Sprintf("one seeded history per index: 1-3 interleaved allocators with min in %v and 1..%d identifiers (10 %% of them with sizes next to powers of two up to 257), up to 6*size steps of Allocate / Allocate_inRange / FreeID in fill, free and mixed phases (every 50th history is a churn history of 600-4600 steps; every 400th a deep-churn history: one Churn step that the runner expands into 3 000-210 000 checked operations drawn from the model's live set, so that per-allocator totals pass 2^12 and 2^16 frees), "+
 				"then a drain phase (Allocate until failure); non-trivial = the history reaches exhaustion, re-allocates after a free, or allocates more than size identifiers in total (scan offset wraps); "+
 				"distinct = distinct FNV-64 hashes of (instances, steps) among those", c20mins, maxSize),
 			"samples":              samples,
@@ -513,7 +616,7 @@ func checkC20(tier string, seed uint64) int {
 		Assumptions: []string{
 			"allocators with max < min are outside the property and are not generated",
 			"a failing Allocate_inRange is unconstrained; a successful one need not lie in [lo,hi] (the property does not say so)",
-			"bounded depth: at most 6*size steps per allocator before the drain phase (churn class: up to 4600)",
+			"bounded depth: at most 6*size steps per allocator before the drain phase (churn class: up to 4600; deep-churn class: up to 210 000 operations on one allocator)",
 		},
 		WallS: wall, Violations: nviol,
 	})
